@@ -90,5 +90,10 @@ CLAIMED = {
   note="Bounds: 2 clusters, histories of <= 3 events, 0..2 server names per version from a 6-element alphabet with case variants and collisions with the cluster names (quick: <= 1 name in 3-event histories). The event choices are symbolic but range over a finite alphabet (the solver prunes; the data is effectively enumerated). Not yet encoded: TLS material selection by SNI (WrapGetConfigForClient), port stripping. Outside: admission plugin's conflict rejection, informer delivery, handshakes.",
   technique="symbolic execution of go/ssa + SMT, history exploration against a reference ownership table",
   ref="9/C10"),
+ "C12": dict(
+  text="Bounded symbolic model checking of the real multi-cluster token-review authenticator and subject-access-review authorizer (with the k8s webhook token authenticator executed from source) against a fake client provider: two clusters (one with two host names), per-cluster review fakes answering arbitrarily and tagging their answers; every result is checked for provenance (own cluster only), review routing, and deny/unauthenticated when the cluster cannot be asked.",
+  note="Bounds: k = 2 (quick) / 3 (thorough) requests, symbolic hosts (incl. unknown), tokens/users of 1 symbolic byte, symbolic endpoint readiness, answers and cache expiry; caching on/off. Stubs: the k8s token cache and LRU expire cache are reference models (an object that returns only what was put into it), json.Marshal is an injective key model, exponential back-off calls once. Counterexamples are replayed natively against the real caches. Outside: the cache implementations themselves, the cleanup goroutine, reconfiguration between requests.",
+  technique="symbolic execution of go/ssa + SMT, provenance tagging",
+  ref="9/C12"),
 }
 NOT_APPLICABLE = {}
